@@ -1,0 +1,9 @@
+//go:build !verif
+// +build !verif
+
+package cmd
+
+import "github.com/hnakamur/whispertool"
+
+// verifNow is the identity unless the package is built with the "verif" tag.
+func verifNow(t whispertool.Timestamp) whispertool.Timestamp { return t }
